@@ -66,6 +66,32 @@ func streamNote() {
 			}
 		}
 	}
+	// very wide intervals: the size stays exact as long as it fits the machine word (about 5.3e18)
+	{
+		var big []uint64
+		for k := uint(8); k <= 62; k++ {
+			big = append(big, uint64(1)<<k-1, uint64(1)<<k, uint64(1)<<k+1)
+		}
+		for _, n := range []uint64{1e9, 1e12, 1e15, 1e17, 5e17, 7e17, 768614336404564658, 768614336404564659, 768614336404564660, 1e18, 2e18, 3e18, 4e18, 5e18, 5300000000000000000} {
+			big = append(big, n, n+1, n+2, n+3, n+4, n+5, n+6)
+		}
+		rb := rng("note-big")
+		for i := 0; i < pick(300, 3000); i++ {
+			big = append(big, rb.Uint64()%5300000000000000000+1)
+		}
+		for _, n := range big {
+			for _, q := range qualities {
+				d := note.Degree{Value: uint(n), Name: q}
+				s.add(fmt.Sprintf("semitone %d %d", n, int(q)), guard(func() string {
+					v, ok := d.Semitone()
+					if !ok {
+						return "none"
+					}
+					return fmt.Sprintf("ok %d", int(v))
+				}))
+			}
+		}
+	}
 	// all notation strings over {b,#,0-9} up to a length bound, plus a few other characters
 	alphabet := []byte("b#0123456789")
 	maxLen := pick(4, 5)
@@ -123,7 +149,7 @@ func streamNote() {
 		s.add(fmt.Sprintf("genattr %d", n), "ok "+pList(items))
 	}
 	// ParseNote
-	for _, str := range []string{"C", "C#", "Db", "H", "", "xC#", "c", "Bbb", "C♯", "E#m", "  F ", "G#b"} {
+	for _, str := range []string{"C", "C#", "Db", "H", "", "xC#", "c", "Bbb", "C♯", "D♭", "x♯F♭♭", "A♮", "E#m", "  F ", "G#b"} {
 		str := str
 		s.add("parsenote "+hx(str), guard(func() string {
 			n, err := note.ParseNote(str)
